@@ -207,6 +207,7 @@ func RunSharded(prop, level string, n int) int {
 	code := 0
 	viol := 0
 	seenKnown := map[string]bool{}
+	distinct := map[string]bool{}
 	for i := 0; i < n; i++ {
 		sd := filepath.Join(dir, strconv.Itoa(i))
 		cmd := exec.Command(os.Args[0], os.Args[1:]...)
@@ -249,7 +250,11 @@ func RunSharded(prop, level string, n int) int {
 		for k, v := range ev.Coverage {
 			switch x := v.(type) {
 			case float64:
-				if old, ok := merged[k].(float64); ok {
+				if k == "history_depth_beyond_layout" || k == "request_kinds" || strings.HasPrefix(k, "max_") {
+					if old, ok := merged[k].(float64); !ok || x > old {
+						merged[k] = x
+					}
+				} else if old, ok := merged[k].(float64); ok {
 					merged[k] = old + x
 				} else if _, seen := merged[k]; !seen {
 					merged[k] = x
@@ -261,6 +266,11 @@ func RunSharded(prop, level string, n int) int {
 			case []any:
 				if k == "samples" && len(samples) < 8 {
 					samples = append(samples, x...)
+				}
+				if k == "distinct_keys" {
+					for _, e := range x {
+						distinct[fmt.Sprint(e)] = true
+					}
 				}
 			default:
 				if _, seen := merged[k]; !seen {
@@ -277,6 +287,10 @@ func RunSharded(prop, level string, n int) int {
 	if len(samples) > 8 {
 		samples = samples[:8]
 	}
+	if len(distinct) > 0 {
+		merged["distinct_nontrivial"] = len(distinct) // union over the shards
+	}
+	delete(merged, "distinct_keys")
 	merged["samples"] = samples
 	merged["exhaustive"] = exhaustive
 	merged["shards"] = n
